@@ -13,11 +13,21 @@ specification's answer (S) (no known class is left); tools/textgen.py serialises
 (entity / character-reference spelling drawn per character), zips them, and the real readers
 open the file through the generic harness command `open`.  Binary storage: xlsb `wide_str` and
 cfb `XlsEncoding::decode_to` through hooks, on UTF-16 with lone surrogates, truncations, BOMs.
+Binary FILES: every generated text is also stored in .xls workbooks (tools/xlsgen.py) as a shared
+string (SST entry, plain or with formatting runs / phonetic ExtRst, the table cut by CONTINUE
+records between strings, inside characters, inside rgRun / ExtRst), as an inline LABEL and as a
+formula's string result (STRING, and beyond 8221 one-byte / 4110 two-byte characters STRING +
+CONTINUE records, 8-bit / 16-bit / mixed), lengths up to the 32767-character cell limit, and read
+back through Xls::new + worksheet_range (harness c12_open); the model side is C12's reduced
+parse_workbook (vm c12_open on the same Workbook stream), the specification is the text.  The same
+texts go into .xlsb packages (tools/xlsbgen.py: BrtSSTItem plain / rich / phonetic + BrtCellIsst,
+BrtCellSt, BrtFmlaString) read through Xlsb::new + worksheet_range (impl vs text; the record walk
+is C03's model, wide_str is the hook above).
 i vs m is the tie; i vs s on structured cases is the search.  xlsx strings carry ECMA-376 _xHHHH_
 material (escapes, near-misses, fragments glued over chunk and run boundaries), ods text carries
 text:tab / text:line-break in every position."""
-import os, re, hashlib
-import vlib
+import os, re, hashlib, struct
+import vlib, xlsgen, xlsbgen
 from textgen import (S, E, T, C, O, hx, unhx, wire, unwire, serialise, xlsx_bytes, ods_bytes,
                      xml_char_ok, qn, sheet_body_events)
 
@@ -25,6 +35,7 @@ ASSUMPTIONS = [
     "quick-xml maps the serialiser's output back to the intended events (tokenisation, entity and character-reference unescaping, empty-element expansion); zip returns the stored bytes",
     "the models start at the event list delivered by quick-xml; the ST_Xstring layer (_xHHHH_) is part of the specification S (xunescape) and of the model M (unescape_xstring), proved equal",
     "ods office:value (float) cells are outside the text model (ONonText)",
+    "xls files: the model side is C12's reduced parse_workbook (BiffSst.wb_strings: SST + CONTINUE, LABELSST, LABEL, FORMULA + STRING + CONTINUE); C19_text_survives_xls composes C12's theorems with the UTF-16 round trip; xlsb files are compared with the stored text only (record walk = C03's model, wide_str = the hook model here)",
 ]
 
 TMP = os.path.join(vlib.CACHE, "tmp", "c19")
@@ -926,6 +937,238 @@ def run_binary(ctx, n, tag):
         elif i != m:
             ctx.disagreements.append({"function": "utf16", "case": line, "impl": i, "model": m})
 
+# ------------------------------------------------------------------ binary FILES: xls and xlsb
+XLS_CHARS_MAX = 8224            # [MS-XLS] record body limit
+
+def units_of(s):
+    b = u16(s)
+    return [b[i] | (b[i + 1] << 8) for i in range(0, len(b), 2)]
+
+def xls_fragments(rng, units, mode):
+    """a formula's string result as STRING + CONTINUE fragments [(units, wide)]: cuts where the
+    record limit forces them (what Excel writes); for the mixed modes also at up to six places
+    (changes between one-byte and two-byte characters preferred), every fragment in the narrowest
+    packing it can have ('mixed16first': the STRING record 16-bit whatever it holds)"""
+    n = len(units)
+    if mode in ("8", "16") or n < 2:
+        pos = []
+    else:
+        edges = [i for i in range(1, n) if (units[i] > 255) != (units[i - 1] > 255)]
+        pos = rng.sample(edges, min(len(edges), rng.choice([0, 1, 2, 4])))
+        pos += [rng.randrange(1, n) for _ in range(rng.choice([0, 1, 2]) if mode == "mixed-cut" or not pos else 0)]
+        pos = sorted(set(pos))
+    bounds = [0] + pos + [n]
+    frs = []
+    for k in range(len(bounds) - 1):
+        a, b = bounds[k], bounds[k + 1]
+        w = any(u > 255 for u in units[a:b]) or mode == "16" or (mode == "mixed16first" and k == 0)
+        while True:
+            cap = (XLS_CHARS_MAX - (3 if not frs else 1)) // (2 if w else 1)
+            frs.append((units[a:min(b, a + cap)], w))
+            a += cap
+            if a >= b:
+                break
+    return frs
+
+def xls_sst_entry(rng, units, cutty):
+    """SST entry (xlsgen dict form): plain, rich (formatting runs), phonetic (ExtRst), any cuts"""
+    n = len(units)
+    e = {"units": units, "wide": True if rng.random() < 0.4 else None}
+    if rng.random() < 0.4:
+        e["runs"] = [(rng.randrange(0, min(n, 65535) + 1), rng.randrange(0, 9)) for _ in range(rng.choice([1, 2, 3, 7]))]
+    if rng.random() < 0.35:
+        e["ext"] = xlsgen.phonetic_ext(units_of(gen_string(rng, xml=False, maxlen=6)))
+    if cutty:
+        if n and rng.random() < 0.5:
+            e["cuts"] = [(p, rng.choice([None, True])) for p in sorted(rng.randrange(0, n) for _ in range(rng.choice([1, 2, 3])))]
+        tl = 4 * len(e.get("runs") or []) + len(e.get("ext") or b"")
+        if tl and rng.random() < 0.7:
+            e["tail_cuts"] = sorted(rng.randrange(0, tl) for _ in range(rng.choice([1, 2, 3])))
+        e["cut_before"] = rng.random() < 0.2
+    return e
+
+def gen_binary_texts(rng, k, big):
+    out = []
+    for j in range(k):
+        r = rng.random()
+        if big and j == 0:
+            out.append(long_string(rng, rng.choice([4111, 8222, 8300, 9000, 12000, 20000, 32767])))
+        elif big and j == 1:
+            # one-byte characters only: more than 8221 of them need a CONTINUE record even compressed
+            out.append("".join(rng.choice("abc xyz<&>\t\u00e9\u00ff") for _ in range(rng.choice([8221, 8222, 8500, 16500]))))
+        elif r < 0.15:
+            out.append(long_string(rng, rng.choice([50, 300, 1200, 4000])))
+        else:
+            out.append(gen_string(rng, xml=False))
+    return out
+
+KEPT = []
+def keep_file(path, limit=6):
+    """a generated binary file named by a violation / disagreement is copied next to the replays
+    (the temp directory belongs to the run); returns the path to put into the case"""
+    import shutil
+    if len(KEPT) >= limit or not os.path.exists(path):
+        try:
+            os.remove(path)
+        except OSError:
+            pass
+        return path
+    dst = os.path.join(vlib.OUTROOT, "replays", "C19-files")
+    os.makedirs(dst, exist_ok=True)
+    shutil.move(path, os.path.join(dst, os.path.basename(path)))
+    KEPT.append(path)
+    return os.path.join(dst, os.path.basename(path))
+
+def cells_of(ans):
+    """c12_open answer of a one-sheet workbook -> {(r, c): hex utf-8}, or None"""
+    if not ans or not ans.startswith("ok:") or "=" not in ans or "|" in ans:
+        return None
+    d, body = {}, ans.split("=", 1)[1]
+    if body:
+        for t in body.split(","):
+            r, c, v = t.split(":", 2)
+            d[(int(r), int(c))] = v
+    return d
+
+def run_xls_files(ctx, n_files, tag):
+    """each text as shared string (col 0), inline LABEL (col 1) and formula string result (col 2)"""
+    rng = ctx.rng
+    os.makedirs(TMP, exist_ok=True)
+    il, ml, meta = [], [], {}
+    for k in range(n_files):
+        big = k % 6 == 0
+        texts = gen_binary_texts(rng, rng.choice([3, 4, 6]), big)
+        cutty = rng.random() < 0.85
+        entries, cells, exp, descr = [], [], {}, []
+        for i, t in enumerate(texts):
+            u = units_of(t)
+            entries.append(xls_sst_entry(rng, u, cutty))
+            cells.append({"k": "labelsst", "r": i, "c": 0, "isst": i})
+            if t != "":
+                exp[(i, 0)] = hx(t) if t else ""
+            forms = ["sst"]
+            if len(u) <= 4000:
+                w = True if any(x > 255 for x in u) else rng.random() < 0.5
+                cells.append({"k": "label", "r": i, "c": 1, "units": u, "wide": w})
+                exp[(i, 1)] = t.encode("utf-8").hex()
+                forms.append("label:%d" % (16 if w else 8))
+            mode = rng.choice(["8", "16", "mixed", "mixed-cut", "mixed16first"])
+            frs = xls_fragments(rng, u, mode)
+            cells.append({"k": "formula", "r": i, "c": 2, "cached": ("str", frs[0][0], frs[0][1]), "cont": frs[1:]})
+            exp[(i, 2)] = t.encode("utf-8").hex()
+            forms.append("fstring:%s:%d-records" % (mode, len(frs)))
+            descr.append("text %d (%d units%s): %s" % (i, len(u), "" if len(u) > 40 else " " + hx(t), ",".join(forms)))
+            ctx.count("xls:text:%s" % ("empty" if not u else "1-40" if len(u) <= 40 else "41-4110" if len(u) <= 4110 else "4111-8221" if len(u) <= 8221 else ">8221"))
+            ctx.count("xls:fstring:%s:%s" % (mode, "continued" if len(frs) > 1 else "one-record"))
+            if entries[-1].get("runs") is not None: ctx.count("xls:sst:rich")
+            if entries[-1].get("ext") is not None: ctx.count("xls:sst:phonetic")
+        wb = {"sst": entries, "sheets": [{"name": "S", "cells": cells, "dimensions": "none"}]}
+        stats = {}
+        # a small record limit on a long table means thousands of CONTINUE records (slow in the extracted
+        # model, and nothing a writer produces): keep it for the short tables
+        longest = max(len(e["units"]) for e in entries)
+        lim = None if (not cutty or longest > 1000) else rng.choice([None, 500]) if longest > 200 else rng.choice([None, None, 64, 500])
+        opts = {"sst_cut": lim, "sst_stats": stats}
+        stream, _ = xlsgen.workbook_stream(wb, opts, rng)
+        for kk, v in stats.items():
+            ctx.count("xls:sst:cut-" + kk if kk != "records" else "xls:sst:records", v)
+        cid = "%s%d" % (tag, k)
+        path = write_file(cid + ".xls", xlsgen.cfb_wrap([("Workbook", stream)], rng=rng, version=rng.choice([3, 4])))
+        il.append("%s\tc12_open\t%s" % (cid, path))
+        ml.append("%s\tc12_open\t%s" % (cid, stream.hex()))
+        meta[cid] = (path, exp, descr, texts)
+    impl, model = ctx.run_impl(il), ctx.run_model(ml)
+    for l in il:
+        cid = l.split("\t", 1)[0]
+        path, exp, descr, texts = meta[cid]
+        i, m = impl.get(cid), model.get(cid)
+        ctx.traces += 1
+        ctx.nontrivial("xls" + cid + hashlib.sha1(repr(sorted(exp.items())).encode()).hexdigest())
+        di = cells_of(i)
+        bad = None
+        if di is None:
+            bad = ("the workbook did not read", "ok", i)
+        else:
+            for p in sorted(set(exp) | set(di)):
+                if exp.get(p) != di.get(p):
+                    form = {0: "shared string (LABELSST)", 1: "inline LABEL", 2: "formula string result (STRING [+ CONTINUE])"}[p[1]]
+                    bad = ("xls %s of text %d: the text stored is not the text read (lengths %s / %s bytes of UTF-8)" % (
+                        form, p[0], len(exp.get(p, "")) // 2, len(di.get(p, "") or "") // 2), exp.get(p), di.get(p))
+                    break
+        if bad:
+            kept = keep_file(path)
+            ctx.violations.append({"case": "%s\t# %s" % (l.replace(path, kept), "; ".join(descr))[:3000], "expected": (bad[1] or "")[:2000], "actual": (bad[2] or "")[:2000],
+                                   "model": (m or "")[:300], "what": bad[0], "file": kept})
+        elif i != m:
+            kept = keep_file(path)
+            ctx.disagreements.append({"function": "xls file (Xls::new+worksheet_range vs C12 wb_strings)", "case": l.replace(path, kept), "impl": (i or "")[:600],
+                                      "model": (m or "")[:600], "file": kept})
+        else:
+            os.remove(path)
+
+XLSB_FMLA_TAIL = struct.pack("<H", 0) + struct.pack("<I", 3) + bytes([0x1E, 1, 0]) + struct.pack("<I", 0)
+
+def run_xlsb_files(ctx, n_files, tag):
+    """each text as shared string (BrtSSTItem plain / rich / phonetic + BrtCellIsst), inline BrtCellSt and
+    BrtFmlaString; impl vs the text"""
+    rng = ctx.rng
+    G = xlsbgen
+    os.makedirs(TMP, exist_ok=True)
+    il, meta = [], {}
+    for k in range(n_files):
+        texts = gen_binary_texts(rng, rng.choice([3, 4, 6]), k % 6 == 0)
+        sst = G.frame((True, 0), 0x9F, struct.pack("<II", len(texts) + rng.randrange(3), len(texts)))
+        items, exp = [], {}
+        for i, t in enumerate(texts):
+            fl = rng.choice([0, 0, 1, 2, 3])
+            body = bytes([fl]) + G.wide(t)
+            if fl & 1:                                   # rich: dwSizeStrRun, StrRun (ich, ifnt)
+                runs = [(rng.randrange(0, len(t) + 1) & 0xFFFF, rng.randrange(9)) for _ in range(rng.choice([0, 1, 3]))]
+                body += struct.pack("<I", len(runs)) + b"".join(struct.pack("<HH", *r) for r in runs)
+            if fl & 2:                                   # phonetic: string, dwPhoneticRun, PhRun
+                ph = gen_string(rng, xml=False, maxlen=5)
+                body += G.wide(ph) + struct.pack("<I", 1) + struct.pack("<HHHH", 0, 0, len(t) & 0xFFFF, 0x37)
+            sst += G.frame(G.min_fr(0x13, body), 0x13, body)
+            items.append({"fr": (False, 0), "k": "row", "row": i, "tail": bytes(13)})
+            for col, v in ((0, ("isst", i)), (1, ("st", t)), (2, ("fst", t))):
+                it = {"k": "cell", "col": col, "style": 0, "fl": 0, "v": v, "tail": XLSB_FMLA_TAIL if v[0] == "fst" else b""}
+                it["fr"] = G.min_fr(G.item_id(it), G.item_body(it))
+                items.append(it)
+                exp[(i, col)] = "S" + hx(t) if t else "S"
+            ctx.count("xlsb:text:%s" % ("empty" if not t else "short" if len(t) <= 40 else "long" if len(t) <= 8221 else ">8221"))
+            ctx.count("xlsb:sst-item:flags%d" % fl)
+        sst += G.frame((True, 0), 0xA0, b"")
+        L = {"pre1": [], "dim": {"fr": (True, 0), "d": (0, 0, len(texts) - 1, 2), "tail": b""}, "pre2": [],
+             "begin": ((True, 0), b""), "items": items, "end": ((True, 0), b""), "trailer": b""}
+        env = {"d1904": False, "xf_ids": [0], "customs": [], "fmts": [0], "strings": texts}
+        cid = "%s%d" % (tag, k)
+        path = os.path.join(TMP, cid + ".xlsb")
+        G.write_package(path, [("S", G.enc_layout(L))], env, sst=sst, compress=rng.random() < 0.5)
+        il.append("%s\topen\txlsb\t%s\trange %s" % (cid, path, hx("S")))
+        meta[cid] = (path, exp, texts)
+    impl = ctx.run_impl(il)
+    for l in il:
+        cid = l.split("\t", 1)[0]
+        path, exp, texts = meta[cid]
+        ctx.traces += 1
+        ctx.nontrivial("xlsb" + cid + hashlib.sha1(repr(sorted(exp.items())).encode()).hexdigest())
+        g = parse_grid(impl.get(cid))
+        bad = None
+        if g is None:
+            bad = ("the xlsb workbook did not read", "R[...]", impl.get(cid))
+        else:
+            for p in sorted(exp):
+                if g.get(p) != exp[p]:
+                    form = {0: "shared string (BrtCellIsst)", 1: "inline BrtCellSt", 2: "BrtFmlaString"}[p[1]]
+                    bad = ("xlsb %s of text %d: the text stored is not the text read" % (form, p[0]), exp[p], g.get(p))
+                    break
+        if bad:
+            kept = keep_file(path)
+            ctx.violations.append({"case": "%s\t# texts: %s" % (l.replace(path, kept), ",".join(hx(t)[:80] for t in texts)), "expected": (bad[1] or "")[:2000],
+                                   "actual": (bad[2] or "")[:2000], "model": None, "what": bad[0], "file": kept})
+        else:
+            os.remove(path)
+
 # ------------------------------------------------------------------ ST_Xstring: writers against S / M (model only)
 def py_xunescape(s):
     """reference decoder written independently of the Coq one (regular expression, one pass)"""
@@ -1147,12 +1390,16 @@ def run(ctx):
         run_raw_xlsx(ctx, raw_xlsx_cases(ctx.rng, 200), "rx%d_" % r)
         run_raw_ods(ctx, raw_ods_cases(ctx.rng, 200), "ro%d_" % r)
         run_binary(ctx, 1500, "b%d_" % r)
+    run_xls_files(ctx, ctx.scale(60, 600), "bx")
+    run_xlsb_files(ctx, ctx.scale(40, 400), "bb")
 
 def search(ctx):
     for r in range(ctx.scale(3, 10)):
         run_xlsx_batch(ctx, [gen_xlsx_case(ctx.rng, big=(i % 25 == 0)) for i in range(500)], "sx%d_" % r)
         run_ods_batch(ctx, [gen_ods_case(ctx.rng, big=(i % 25 == 0)) for i in range(500)], "so%d_" % r)
         run_binary(ctx, 3000, "sb%d_" % r)
+    run_xls_files(ctx, ctx.scale(120, 400), "sbx")
+    run_xlsb_files(ctx, ctx.scale(60, 200), "sbb")
 
 def replay(ctx, rep):
     case = rep.get("case") or ""
@@ -1165,6 +1412,28 @@ def replay(ctx, rep):
     elif len(f) > 2 and f[2] == "ods":
         before = len(ctx.violations) + len(ctx.disagreements)
         run_ods_batch(ctx, [f[3].split("|")], "rp")
+    elif len(f) > 2 and f[1] in ("c12_open", "open") and (f[2].endswith(".xls") or (len(f) > 3 and f[3].endswith(".xlsb"))):
+        # binary file cases: the generated file is kept when it fails; the cell named in "what" must
+        # read back with the stored length (the replay file holds a prefix of the text only)
+        path = f[2] if f[1] == "c12_open" else f[3]
+        if not os.path.exists(path):
+            print("the generated file is gone; re-run ./check C19 with the same VERIF_SEED to regenerate it")
+            return 2
+        line = "\t".join(f[:3] if f[1] == "c12_open" else f[:5])
+        ans = ctx.run_impl([line]).get(cid)
+        print("impl :", (ans or "")[:400]); print("what :", rep.get("what")); print("expected:", (rep.get("expected") or "")[:200])
+        m = re.search(r"of text (\d+).*lengths (\d+) /", rep.get("what") or "")
+        if f[1] == "c12_open" and m:
+            col = 0 if "shared string" in rep["what"] else 1 if "LABEL" in rep["what"] else 2
+            d = cells_of(ans) or {}
+            return 0 if len(d.get((int(m.group(1)), col), "")) // 2 == int(m.group(2)) else 1
+        m = re.search(r"of text (\d+)", rep.get("what") or "")
+        if f[1] == "open" and m:
+            col = 0 if "shared string" in rep["what"] else 1 if "BrtCellSt" in rep["what"] else 2
+            g = parse_grid(ans) or {}
+            got, exp = g.get((int(m.group(1)), col)) or "", rep.get("expected") or ""
+            return 0 if (got == exp if len(exp) < 2000 else got.startswith(exp)) else 1
+        return 1 if ans is None or not ans.startswith(("ok:", "R[")) else 0
     else:
         impl, model = ctx.run_both([case])
         print("impl :", impl.get(cid)); print("model:", model.get(cid)); print("expected:", rep.get("expected"))
